@@ -12,7 +12,38 @@ def _mod(prop):
     return importlib.import_module(f"gbverif.props.{prop.lower()}")
 
 
+def force_pyfunc():
+    """GBVERIF_PYFUNC=1: run the library's array kernels as their own Python source (dispatcher.py_func) so that an
+    out-of-bounds access - undefined behaviour in the compiled code - raises IndexError.  Scalar reducers stay compiled."""
+    import functools
+    from numba.core.dispatcher import Dispatcher
+
+    def mk(d):
+        def w(*a, **k):
+            return d.py_func(*a, **k)
+        functools.update_wrapper(w, d.py_func)
+        w.py_func = d.py_func
+        return w
+    mods = [importlib.import_module(m) for m in ("groupby_lib.util", "groupby_lib.groupby.numba", "groupby_lib.emas", "groupby_lib.nanops",
+                                                 "groupby_lib.groupby.factorization", "groupby_lib.groupby.core")]
+    cache = {}
+    for mod in mods:
+        for name, obj in list(vars(mod).items()):
+            if isinstance(obj, Dispatcher):
+                cache.setdefault(id(obj), mk(obj))
+                setattr(mod, name, cache[id(obj)])
+            elif isinstance(obj, type) and obj.__module__ == mod.__name__ and obj.__name__ != "ScalarFuncs" and obj.__name__ != "NumbaReductionOps":
+                for an, av in list(vars(obj).items()):
+                    inner = av.__func__ if isinstance(av, staticmethod) else av
+                    if isinstance(inner, Dispatcher):
+                        cache.setdefault(id(inner), mk(inner))
+                        setattr(obj, an, staticmethod(cache[id(inner)]))
+
+
 def main(argv):
+    import os
+    if os.environ.get("GBVERIF_PYFUNC") == "1":
+        force_pyfunc()
     if argv and argv[0] == "--batch":
         data = json.load(open(argv[1]))
         mod = _mod(data["prop"])
